@@ -17,7 +17,7 @@ CLASS_POOL = [
     [0, 1], [1, 2, 3, 4], [3, 1, 2, 0], [0, 300, 7], list(range(2, 11)), [0, 2, 1, 3], [0, 3, 1, 2, 4],
 ]
 BAD_KINDS = ['rows', 'length', 'words', 'type_traces', 'type_data', 'float_data', 'first_range', 'neg_auto',
-             'lowmem', 'not_built', 'tpl_two_words']
+             'lowmem', 'not_built', 'tpl_two_words', 'traces_1d']
 
 
 RULE = {
@@ -213,8 +213,9 @@ def gen_history(seed, tier, prop, kinds_allowed):
         else:
             cl = r.choice(CLASS_POOL)
             scn['classes'] = cl
-            if kind == 'mia':
-                scn['pool'] = list(cl)              # MIA: declared values only (DESIGN 1, reading note)
+            if kind == 'mia' and r.random() < 0.6:
+                scn['pool'] = list(cl)              # MIA: mostly declared values only (what an undeclared value does there is C12's question;
+                #                                     the twin treats it the same way, so split invariance is still decided soundly)
             elif regime == 'float':
                 scn['pool'] = list(cl)[:3]
             else:
@@ -418,6 +419,8 @@ def generate_c11(seed, tier):
 def bad_applicable(bk, kind, first, auto):
     if bk in ('rows', 'type_traces', 'type_data'):
         return True
+    if bk == 'traces_1d':
+        return kind != 'ttacc'
     if bk == 'length':
         # as a very first call a different length is simply a valid call (nothing to differ from),
         # except for template matching where the building phase fixed the length
@@ -548,6 +551,8 @@ def _bad_args(scn, bk, tr, da):
         return tr, np.ascontiguousarray(np.concatenate([flat, flat[:, :1]], 1))
     if bk == 'type_traces':
         return tr.tolist(), da
+    if bk == 'traces_1d':
+        return np.ascontiguousarray(tr[:, 0]), da
     if bk == 'type_data':
         return tr, None
     if bk == 'float_data':
